@@ -191,7 +191,7 @@ func rulesC02(c *Ctx) {
 				}
 			}
 			n3++
-			c.Check(dirEdgeCreates, "R3", "walk callback in "+fname(top)+" creates visited directories", f.Pos(), "a directory node leads to MkdirAll under the destination on its IsDir edge",
+			c.Check(dirEdgeCreates && dirEdgeAlwaysCreates(f, info), "R3", "walk callback in "+fname(top)+" creates visited directories", f.Pos(), "a directory node leads to MkdirAll under the destination on its IsDir edge",
 				"a directory met by the walk is not created at the destination on that edge — empty directories are missing from the copy (the memory backend keeps them)")
 		}
 	}
@@ -256,7 +256,7 @@ func rulesC02(c *Ctx) {
 			}
 		}
 		n3++
-		c.Check(dirEdgeCreates, "R3", "walk callback "+fname(f)+" creates visited directories", f.Pos(), "a directory node leads to MkdirAll under the destination on its IsDir edge",
+		c.Check(dirEdgeCreates && dirEdgeAlwaysCreates(f, info), "R3", "walk callback "+fname(f)+" creates visited directories", f.Pos(), "a directory node leads to MkdirAll under the destination on its IsDir edge",
 			"a directory met by the walk is not created at the destination on that edge — empty directories are missing from the copy (the memory backend keeps them)")
 	}
 	c.Floor("R3", n3, 3)
@@ -546,4 +546,52 @@ func ruleDiskCopyFileCloses(c *Ctx) {
 		}
 	}
 	c.Check(ok, "R6", "disk.CopyFile closes and reports", cf.Pos(), "destination closed on every path; Close error returned on success", why)
+}
+
+// dirEdgeAlwaysCreates: in a walk callback, every return that can report success
+// for a directory node (IsDir() known true) hands on, or follows, a MkdirAll.
+func dirEdgeAlwaysCreates(f *ssa.Function, info *ssa.Parameter) bool {
+	facts := factsFor(f)
+	isMk := func(ci *CallInfo) bool {
+		if ci == nil || ci.Static == nil {
+			return false
+		}
+		q := qualName(ci.Static)
+		return q == mq(diskPkg, "", "MkdirAll") || q == "os.MkdirAll" || q == "os.Mkdir"
+	}
+	var mks []*CallInfo
+	for _, ci := range Calls(f) {
+		if isMk(ci) {
+			mks = append(mks, ci)
+		}
+	}
+	isDirKnown := func(fs factSet) bool {
+		for k := range fs {
+			if call, isCall := k.v.(*ssa.Call); isCall && k.pol && call.Call.Method != nil && call.Call.Method.Name() == "IsDir" && call.Call.Value == ssa.Value(info) {
+				return true
+			}
+		}
+		return false
+	}
+	any := false
+	for _, r := range returnsOf(f) {
+		if !isDirKnown(facts.At(r.Block())) {
+			continue
+		}
+		any = true
+		rv := resolve(r.Results[0])
+		if facts.HoldsOnAllEdges(r.Block(), func(fs factSet) bool { return knownNilIn(fs, rv, false) }) {
+			continue
+		}
+		ok := false
+		for _, mk := range mks {
+			if rv == mk.Value() || dominates(mk.Instr, r) {
+				ok = true
+			}
+		}
+		if !ok {
+			return false
+		}
+	}
+	return any
 }
